@@ -109,6 +109,15 @@ ListsAreGeometric ==
 \* the upper-half filter keeps exactly one direction of every neighbour pair
 HalfFilterAntisymmetric == \A x \in NBI[L][M] : (x[2] > Half3) # (Neg3(x[2]) > Half3)
 
+(* C10 (periodic shifter): the neighbour reached across a face is the      *)
+(* wrapped cell displaced by ImageOf box widths, each component in -1..1,  *)
+(* and a shift is needed exactly when some component is not 0.             *)
+ShiftIsImage == (Periodic /\ L = LeafLevel) =>
+    \A x \in NBI[L][M] : LET o == Dec3(x[2])  img == ImageOf(C, o, L) IN
+                          /\ \A d \in Dims : img[d] \in {0 - 1, 0, 1}
+                          /\ Add(C, o) = Add(Coord(x[1], L), Scale(img, Side(L)))
+                          /\ (img = Zero <=> InBox(Add(C, o), L))
+
 (* Partition lemma (the design reason for C01): two distinct leaves are    *)
 (* either adjacent, or there is exactly one level at which their ancestors *)
 (* are in each other's interaction list - never both, never twice.         *)
@@ -132,6 +141,9 @@ PartitionLemma ==
 \* lists as sets of integers  index * 7^Dim + code  (fits 31 bits for the bounded heights)
 ILInts    == { x[1] * (7^Dim) + x[2] : x \in ILI[L][M] }
 NeighInts == { x[1] * (3^Dim) + x[2] : x \in NBI[L][M] }
+\* expected periodic shifts of the leaf neighbours: (index * 3^Dim + code) * 3^Dim + Enc3(image)
+ShiftInts == IF Periodic /\ L = LeafLevel
+             THEN { (x[1] * (3^Dim) + x[2]) * (3^Dim) + Enc3(ImageOf(C, Dec3(x[2]), L)) : x \in NBI[L][M] } ELSE {}
 \* the axioms as data (used when the table comes from the implementation: every failing cell is listed, not only the first)
 Axioms == [ Bijection |-> Bijection, ParentContains |-> ParentContains, ChildCodeDistinct |-> ChildCodeDistinct,
             CodeRoundTrip |-> CodeRoundTrip, ILSymmetric |-> ILSymmetric, NeighSymmetric |-> NeighSymmetric,
@@ -139,5 +151,5 @@ Axioms == [ Bijection |-> Bijection, ParentContains |-> ParentContains, ChildCod
 Emit == EmitJson => PrintT(ToJson([ k |-> "cell", l |-> L, m |-> M, c |-> C, ax |-> Axioms,
                                    p |-> IF L > 0 THEN Index(ParentC(C), L-1) ELSE 0 - 1,
                                    cc |-> IF L > 0 THEN ChildCodeC(C) ELSE 0 - 1,
-                                   il |-> ILInts, nb |-> NeighInts ]))
+                                   il |-> ILInts, nb |-> NeighInts, sh |-> ShiftInts ]))
 =============================================================================
